@@ -27,10 +27,12 @@ RULE = ("A case is one gene on a real record plus the protein ranges asked of it
         "genes instead overlaps by 1-2 bases, the programmed-frameshift annotation), linear or "
         "circular record, one in three circular genes rotated so that the origin falls inside an exon, "
         "exactly on an exon border or inside an intron; the gene is created through CDSFeature.from_biopython "
-        "with a codon_start qualifier and without a translation qualifier, so the frameshift and translation "
+        "with a codon_start qualifier, so the frameshift and translation "
         "paths are the real ones; non-spanning genes are also made partial (<start and/or >end), the shape in which "
         "codon_start 2/3 occurs. The sequence has no in-frame stop except an optional terminal one; start codon "
-        "ATG/GTG/TTG. Genes up to 40 residues get ALL ranges 0<=s<e<=n; longer genes (to 330 residues) get "
+        "ATG/GTG/TTG; the /translation qualifier is absent, right, or unusable ('*' appended or inside, '-', '?', "
+        "lowercase: antiSMASH must then translate the codon_start-shifted location itself). "
+        "Genes up to 40 residues get ALL ranges 0<=s<e<=n; longer genes (to 330 residues) get "
         "ranges drawn around exon borders and ends. Enumeration: every 1-3 exon split of a 5-codon gene x "
         "strand x intron x every rotation of a ring that holds it, all ranges. Non-trivial: the gene has more "
         "than one part, or is on the reverse strand, or has codon_start 2/3; distinct = sha1 of the spec. "
@@ -164,6 +166,28 @@ def read_location(location) -> dict:
             "part_strands": [p.strand for p in location.parts]}
 
 
+TRANSLATION_KINDS = ("valid", "stop_appended", "stop_inside", "gap", "unknown", "lowercase")
+
+
+def translation_qualifier(kind, literal: str):
+    """ the /translation qualifier a gene is given: None (absent, antiSMASH translates), the right one ("valid"),
+        or one antiSMASH cannot use and has to replace by its own translation of the (codon_start-shifted)
+        location: a character outside the protein alphabet - '*' appended or inside (internal stops as some
+        pipelines write them), '-' (gap), '?', or lowercase letters """
+    if not kind:
+        return None
+    right = "M" + literal[1:]
+    middle = len(right) // 2
+    if kind == "valid":
+        return right
+    if kind == "stop_appended":
+        return right + "*"
+    if kind == "lowercase":
+        return right.lower()
+    mark = {"stop_inside": "*", "gap": "-", "unknown": "?"}[kind]
+    return right[:middle] + mark + right[middle + 1:]
+
+
 class Case:
     """ everything the subchecks need about one generated gene """
     def __init__(self, spec: dict, shared: dict = None) -> None:
@@ -212,6 +236,9 @@ class Case:
         bio.qualifiers["locus_tag"] = [self.name]
         if self.codon_start != 1 or spec.get("explicit_codon_start"):
             bio.qualifiers["codon_start"] = [str(self.codon_start)]
+        given = translation_qualifier(spec.get("translation"), self.literal)
+        if given is not None:
+            bio.qualifiers["translation"] = [given]
         self.rejected = None
         self.cds = None
         try:
@@ -422,6 +449,9 @@ def classes_of(case: Case) -> list:
               "stop_codon" if spec.get("stop") else "no_stop", f"trailing_{len(case.order) % 3}",
               f"start_{spec.get('start', 'ATG')}", "circular" if spec["circular"] else "linear",
               f"{kind}_strand_{case.strand}"]
+    labels.append(f"translation_{spec.get('translation') or 'absent'}")
+    if spec.get("translation") and spec.get("translation") != "valid" and case.codon_start != 1:
+        labels.append(f"unusable_translation_with_codon_start_strand_{case.strand}")
     if spec.get("partial"):
         labels.append(f"partial_{spec['partial']}")
     if case.overlap:
@@ -589,20 +619,20 @@ def check_prepeptide(spec: dict) -> dict:
                                        {"first": vio.detail, "first_clause": "exception", "failed_ranges": 1,
                                         "ranges": len(ranges), "all_explained_by": "overlap_boundary"}) from vio
         raise
-    # known (C09-prepeptide-rebuilt-hull-adjacency): what build_location_from_others makes of the sections when the
-    # lowest coordinate of one equals the highest coordinate of those before it without following it in the transcript
+    # known (C09-prepeptide-rebuilt-reverse-touching, what is left of the repaired hull-adjacency defect): what
+    # build_location_from_others makes of reverse-strand sections of which one starts where the previous one ends
     rebuilt_model = _rebuild_by_hull(written, case.strand)
 
     def explain_hull(start: int, end: int, failure: dict):
         if rebuilt_model is None or not case.spanning:
             return None
         if failure["clause"] == "exception":
-            return "hull_adjacency" if failure["detail"]["where"].endswith(
+            return "reverse_touching_merge" if failure["detail"]["where"].endswith(
                 "feature.py:get_sub_location_from_protein_coordinates") else None
         walked = transcript({"parts": rebuilt_model, "strand": case.strand})
         if end >= case.residues:      # the last section runs to the end of the (rebuilt, longer) location
             end = len(walked) // 3
-        return "hull_adjacency" if failure.get("got_order") == walked[3 * start:3 * end] else None
+        return "reverse_touching_merge" if failure.get("got_order") == walked[3 * start:3 * end] else None
 
     again: dict = {}
     for feature in reread:
@@ -639,14 +669,15 @@ def check_prepeptide(spec: dict) -> dict:
 
 def _rebuild_by_hull(sections: list, strand: int):
     """ build_location_from_others as it is today, on plain part lists: a section is merged into what was built
-        when its lowest coordinate equals the highest coordinate built so far.  Returns the rebuilt parts if at
-        least one such merge joined parts that do not follow each other in the transcript, else None. """
+        when its first part starts where the last part built so far ends.  On the reverse strand parts that follow
+        each other in the transcript never ascend, so such a merge joins the wrong ends (only possible when the gene
+        is wound round the whole ring).  Returns the rebuilt parts if at least one such merge happened, else None. """
     built = [list(part) for part in sections[0]["parts"]]
     false_merge = False
     for section in sections[1:]:
         parts = [list(part) for part in section["parts"]]
-        if min(s for s, _ in parts) == max(e for _, e in built):
-            if strand == -1 or built[-1][1] != parts[0][0]:
+        if parts[0][0] == built[-1][1]:
+            if strand == -1:
                 false_merge = True
             built = built[:-1] + [[built[-1][0], parts[0][1]]] + parts[1:]
         else:
@@ -1059,10 +1090,11 @@ def _sig_overlap_refused(sub, spec, clause, detail) -> bool:
 
 
 def _sig_hull_adjacency(sub, spec, clause, detail) -> bool:
-    """ prepeptide on an origin-spanning gene, re-read from its features, AND every wrong section is exactly what
-        walking the location rebuilt with the hull-coordinate merge gives """
-    return (sub == "prepeptide" and "loc" in spec and gen.is_span(spec["loc"])
-            and clause == "reread_prepeptide_hull_adjacency" and detail.get("all_explained_by") == "hull_adjacency")
+    """ prepeptide on a reverse-strand origin-spanning gene, re-read from its features, AND every wrong section is
+        exactly what walking the location rebuilt with the touching-parts merge gives """
+    return (sub == "prepeptide" and "loc" in spec and gen.is_span(spec["loc"]) and spec["loc"]["strand"] == -1
+            and clause == "reread_prepeptide_reverse_touching_merge"
+            and detail.get("all_explained_by") == "reverse_touching_merge")
 
 
 def _sig_tta(sub, spec, clause, detail) -> bool:
@@ -1091,7 +1123,8 @@ SIGNATURES = {
     "tta_linear_offset": _sig_tta,
     "overlap_boundary": _sig_overlap,
     "overlap_same_end_refused": _sig_overlap_refused,
-    "prepeptide_rebuilt_hull_adjacency": _sig_hull_adjacency,
+    "prepeptide_rebuilt_hull_adjacency": _sig_hull_adjacency,     # fixed entry in known_findings.json
+    "prepeptide_rebuilt_reverse_touching": _sig_hull_adjacency,
     "prepeptide_stop_codon_appended": _sig_prepeptide_appended,
     "prepeptide_stop_codon_shifted": _sig_prepeptide_shifted,
 }
@@ -1190,6 +1223,9 @@ def gene_specs(draw, max_codons: int = 40, sampled_ranges: bool = False, allow_s
         spec["explicit_codon_start"] = True
     if allow_partial and not gen.is_span(loc) and draw(st.integers(0, 3 if codon_start == 1 else 1)) == 0:
         spec["partial"] = draw(st.sampled_from(["5", "5", "3", "53"]))
+    # the /translation qualifier: absent, right, or unusable (antiSMASH then translates the shifted location itself)
+    if draw(st.integers(0, 1 if codon_start != 1 else 2)) == 0:
+        spec["translation"] = draw(st.sampled_from(TRANSLATION_KINDS))
     if sampled_ranges:
         spec["ranges"] = draw(range_lists(residues, exons, lead))
     if tta:
